@@ -201,6 +201,13 @@ func ListOfAny(vs []val.Value) val.Value {
 			l = append(l, uint64(v.(val.UInt64)))
 		}
 		return val.UInt64List(l)
+	case val.Binary:
+		// the library's list form of binary values is a list of their base64 texts
+		var l []string
+		for _, v := range vs {
+			l = append(l, string(v.(val.Binary)))
+		}
+		return val.StringList(l)
 	case val.Int8:
 		var l []int8
 		for _, v := range vs {
